@@ -186,6 +186,9 @@ def run(cx, rep):
     rep.rule("C06.4", "DNF conversion: push/pop pairing, clause emission, folding back")
     check_dnf(cx, rep, F_)
 
+    # ---------------------------------------------------------------- C06.6
+    clause_simplification_rule(cx, rep, F_, "C06.6")
+
     # ---------------------------------------------------------------- C06.5
     rep.rule("C06.5", "the pairwise merge of two tag-sorted tables filters every entry by its own tag")
     merge_filter_rule(cx, rep, F_, "C06.5")
@@ -627,3 +630,97 @@ def merge_filter_rule(cx, rep, F_, rid):
                            g, ", ".join(sorted(v_roots)), ", ".join(sorted(e_roots))),
                        "%s:%s" % (f.file, x["line"]), sample={"fn": g, "test_reads": sorted(e_roots), "emitted_reads": sorted(v_roots)})
     rep.floor(rid, "masked emissions of the pairwise merge", n, 3)
+
+
+# ---------------------------------------------------------------------------------------------------- C06.6
+def clause_simplification_rule(cx, rep, F, rid):
+    """A disjunctive normal form may be simplified without changing the set it denotes only in two ways: a clause that
+    contains an atom both positively and negatively is dropped, and a clause is dropped when ANOTHER clause subsumes
+    it - `a` subsumes `b` iff a.positive is a subset of b.positive AND a.negative is a subset of b.negative (a clause
+    with fewer literals of either polarity denotes a larger set; both polarities run the SAME way).  Decided over the
+    engine's files: (1) every bool-valued function of two clauses (`&Conjunction`) compares `positive` with
+    `positive` and `negative` with `negative`, and the operand that comes from the first clause is on the same side
+    in both comparisons; (2) `retain` / `filter` over a list of clauses with a predicate of ONE clause reads both its
+    `positive` and its `negative` field (the contradiction test) - anything else throws away part of the union."""
+    from facts import walk as hwalk
+    rep.rule(rid, "a DNF is only simplified by polarity-consistent subsumption (and by dropping contradictory clauses)")
+    n_bin = n_un = 0
+    def is_clause(t):
+        return (t or "").replace("&", "").replace("mut ", "").strip().endswith("dnf::Conjunction")
+    for g, tree in sorted(F.hir.items()):
+        f = F.fns.get(g)
+        if f is None or not (f.file or "").startswith("packages/beff-core/src/subtyping"):
+            continue
+        ins = f.inputs or []
+        if f.kind == "Closure":
+            # closure parameter types: taken from the pattern types
+            ins = [p.get("ty") for p in tree["params"]]
+        cl = [i for i, t in enumerate(ins) if is_clause(t) or is_clause((t or "").replace("std::rc::Rc<", "").rstrip(">"))]
+        out_bool = (f.output == "bool") or f.kind == "Closure"
+        if not out_bool or not cl:
+            continue
+        plid = {}
+        for i in cl:
+            p = tree["params"][i] if i < len(tree["params"]) else None
+            if p is not None:
+                for q in hwalk(p):
+                    if q["k"] == "P.Binding":
+                        plid[q.get("lid")] = i
+        def field_of(e):
+            """(param index, field) if e is `<clause param>.positive|negative` (through & and derefs)"""
+            while isinstance(e, dict) and e.get("k") in ("AddrOf", "Deref", "DropTemps", "Unary", "MethodCall") and (e.get("k") != "MethodCall" or e.get("method") in ("iter", "as_slice", "clone", "as_ref", "deref", "len")):
+                e = e.get("e") if e.get("k") != "MethodCall" else e["recv"]
+            if isinstance(e, dict) and e.get("k") == "Field" and e.get("name") in ("positive", "negative"):
+                b = e["e"]
+                while isinstance(b, dict) and b.get("k") in ("AddrOf", "Deref", "DropTemps", "Unary"):
+                    b = b["e"]
+                if isinstance(b, dict) and b.get("k") == "Path" and b.get("lid") in plid:
+                    return plid[b["lid"]], e["name"]
+            return None
+        if len(cl) >= 2:
+            comps = []
+            for n in hwalk(tree["body"]):
+                ops = None
+                if n["k"] == "Call" and len(n.get("args") or []) >= 2:
+                    ops = [field_of(a) for a in n["args"][:2]]
+                elif n["k"] == "MethodCall" and n.get("args"):
+                    ops = [field_of(n["recv"]), field_of(n["args"][0])]
+                    if ops[0] is None and n["k"] == "MethodCall" and n.get("method") in ("all", "any"):
+                        # xs.iter().all(|x| ys.contains(x))
+                        inner = [m for m in hwalk(n["args"][0]) if m["k"] == "MethodCall" and m.get("method") == "contains"]
+                        if inner:
+                            ops = [field_of(n["recv"]), field_of(inner[0]["recv"])]
+                elif n["k"] == "Binary" and n.get("op") in ("Eq", "Ne", "Le", "Lt", "Ge", "Gt"):
+                    ops = [field_of(n["l"]), field_of(n["r"])]
+                if ops and ops[0] and ops[1] and ops[0][0] != ops[1][0]:
+                    comps.append((ops[0], ops[1], n.get("line")))
+            if not comps:
+                continue
+            n_bin += 1
+            cross = [c for c in comps if c[0][1] != c[1][1]]
+            order = {}
+            for a_, b_, _l in comps:
+                if a_[1] == b_[1]:
+                    order.setdefault(a_[1], set()).add(a_[0])
+            consistent = not cross and all(len(v) == 1 for v in order.values()) and len({tuple(sorted(v)) for v in order.values()}) <= 1
+            rep.ob(rid, "%s/polarity-consistent" % g.rsplit("::", 1)[-1], consistent,
+                   "%s relates two clauses but compares their literal sets in different directions for the two polarities (%s): a clause subsumes another iff BOTH its positive and its negative atoms are subsets of the other's - with the negatives reversed, `(A and not C) or (A and B)` loses the clause `A and B`, i.e. values of the union" % (
+                       g, "; ".join("%s.%s vs %s.%s" % ("ab"[min(a_[0], 1) if a_[0] == cl[0] else 1], a_[1], "ab"[0 if b_[0] == cl[0] else 1], b_[1]) for a_, b_, _ in comps)),
+                   f.loc(), sample={"fn": g, "comparisons": len(comps)})
+        else:
+            # unary predicates used to drop clauses
+            used = False
+            for h, t2 in F.hir.items():
+                for n in hwalk(t2["body"]):
+                    if n["k"] == "MethodCall" and n.get("method") in ("retain", "filter", "retain_mut", "extract_if", "skip_while", "take_while") and n.get("args"):
+                        a0 = n["args"][0]
+                        if (a0.get("k") == "Closure" and a0.get("def") == g) or (a0.get("k") == "Path" and (a0.get("def") or "") == g):
+                            used = True
+            if not used:
+                continue
+            n_un += 1
+            fields = {fo[1] for n in hwalk(tree["body"]) if n["k"] == "Field" for fo in [field_of(n)] if fo}
+            rep.ob(rid, "%s/unary-drop-is-contradiction-test" % g.rsplit("::", 1)[-1], fields == {"positive", "negative"},
+                   "%s drops clauses of a disjunction by a predicate over one clause that reads %s: the only clause that denotes nothing by itself is one with an atom in both polarities" % (g, sorted(fields) or "neither literal set"),
+                   f.loc(), sample={"fn": g})
+    rep.ob(rid, "scan", True, sample={"two_clause_predicates": n_bin, "one_clause_drop_predicates": n_un})
